@@ -16,6 +16,7 @@
   Numeric bounds, integrality, error codes, lint names and the attribute table come from Gen/*.lean (regenerated
   from the Rust source on every run).
 -/
+import SlicecVerif.Gen.VisitorReach
 import SlicecVerif.Model.Elab
 import SlicecVerif.Gen.Primitives
 import SlicecVerif.Gen.ErrorCodes
@@ -929,7 +930,7 @@ def firstNonEmpty : List (List String) → List String
 
 def phases (P : Program) : List (List String) :=
   [parseCodes P, attrPatchRule.codes P, resolveRule.codes P, cycleRule.codes P, namesRule.codes P,
-   (visitorRules false).flatMap (·.codes P)]
+   (visitorRules Gen.unvisitedTypeRefAttrsValidated).flatMap (·.codes P)]
 
 end Slicec.Validate
 
@@ -948,12 +949,16 @@ def gatedRules (unvisited : Bool) : List Rule :=
 /-- the specification: the program satisfies every language rule of the property -/
 def WellFormed (P : Program) : Prop := ParseOK P ∧ ∀ r ∈ gatedRules true, r.Holds P
 
-/-- what the compiler actually enforces: `WellFormed` without the attribute rules on enum underlying types and
-    interface bases, which no validator visits (D-04b) -/
-def WellFormedAsEnforced (P : Program) : Prop := ParseOK P ∧ ∀ r ∈ gatedRules false, r.Holds P
+/-- what the compiler actually enforces. Whether the attribute rules also range over enum underlying types and interface
+    bases is read off the source (`Gen.unvisitedTypeRefAttrsValidated`: true since the repair of D-04b). -/
+def WellFormedAsEnforced (P : Program) : Prop := ParseOK P ∧ ∀ r ∈ gatedRules Gen.unvisitedTypeRefAttrsValidated, r.Holds P
+
+/-- the weaker rule set in which attributes on enum underlying types and interface bases are not looked at -/
+def WellFormedVisitedOnly (P : Program) : Prop := ParseOK P ∧ ∀ r ∈ gatedRules false, r.Holds P
 
 instance (P : Program) : Decidable (WellFormed P) := by unfold WellFormed; infer_instance
 instance (P : Program) : Decidable (WellFormedAsEnforced P) := by unfold WellFormedAsEnforced; infer_instance
+instance (P : Program) : Decidable (WellFormedVisitedOnly P) := by unfold WellFormedVisitedOnly; infer_instance
 
 /-- kinds of error a parse-time violation is reported with -/
 def parseKinds : List String := ["IntegerLiteralOverflows", "TagValueOutOfBounds", "ReturnTuplesMustContainAtLeastTwoElements", "Syntax"]
@@ -961,7 +966,7 @@ def parseKinds : List String := ["IntegerLiteralOverflows", "TagValueOutOfBounds
 /-- `code` is the diagnostic of a rule that `P` actually violates -/
 def Violates (c : String) (P : Program) : Prop :=
   ((∃ k ∈ parseKinds, c = code k) ∧ ¬ ParseOK P) ∨
-  ∃ r ∈ gatedRules false, (∃ k ∈ r.kinds, c = code k) ∧ ¬ r.Holds P
+  ∃ r ∈ gatedRules Gen.unvisitedTypeRefAttrsValidated, (∃ k ∈ r.kinds, c = code k) ∧ ¬ r.Holds P
 
 instance (c : String) (P : Program) : Decidable (Violates c P) := by unfold Violates; infer_instance
 
